@@ -72,6 +72,15 @@ Theorem C01_rtl_accepted_schedules_agree (G : decls) (progs : nat -> list stmt) 
                 (run_list (Bd d (fun i => rtl_run G (progs i))) o2 e).
 Proof. exact (rtl_accepted_schedules_agree G progs d). Qed.
 
+(* the same when only some blocks are in the language (inl i): footprint hypotheses remain only for the others *)
+Theorem C01_rtl_mixed_schedules_agree (G : decls) (progs : nat -> list stmt) (inl : nat -> bool)
+        (R0 : nat -> env bit bool -> env bit bool) (d : design) :
+  wf_declsb G = true -> wf_design d = true -> sw_ok d = true -> mixed_cover_ok G progs inl d = true ->
+  (forall i, In i (ids d) -> inl i = false -> frame (Bd d R0 i) /\ dep (Bd d R0 i)) ->
+  forall o1 o2, sched_ok d o1 = true -> sched_ok d o2 = true ->
+  forall e, eqe (run_list (Bd d (mixed_run G progs inl R0)) o1 e) (run_list (Bd d (mixed_run G progs inl R0)) o2 e).
+Proof. exact (rtl_mixed_schedules_agree G progs inl R0 d). Qed.
+
 (* the table computed from signal shapes (first field most significant) is a legal declaration table *)
 Theorem C01_rtl_decls_of_wf T : wf_shapes T = true -> wf_declsb (decls_of T) = true.
 Proof. exact (decls_of_wf T). Qed.
@@ -115,5 +124,6 @@ Print Assumptions C01_rtl_dep.
 Print Assumptions C01_rtl_blk_footprints.
 Print Assumptions C01_rtl_covers_sound.
 Print Assumptions C01_rtl_accepted_schedules_agree.
+Print Assumptions C01_rtl_mixed_schedules_agree.
 Print Assumptions C01_rtl_decls_of_wf.
 Print Assumptions C01_rtl_nonvacuous.
